@@ -666,6 +666,72 @@ func runQueryFlow(c *core.Ctx) []core.Obligation {
 		}
 		add("sortAndUniqueResults", su, sorts && eq && usesLess, "sorts with EdgeQueryResult.Less and drops only results equal to their predecessor", "does not sort with Less and unique by whole-result equality")
 	}
+	// splitting a cell: children 1 and 3 are found by a forward seek (which may run off the end: Done), children 0 and 2
+	// by stepping back from wherever that seek landed - also from the end. Their tests must not hang on "not Done".
+	if fn := c.Fn("s2", "EdgeQuery", "findEdgesOptimized"); fn != nil {
+		seen := map[int64]bool{}
+		ok, why := true, ""
+		core.AllInstrs(fn, func(in ssa.Instruction) {
+			call, isCall := in.(*ssa.Call)
+			if !isCall || core.StaticCallee(call) == nil || core.StaticCallee(call).Name() != "processOrEnqueueCell" || len(call.Call.Args) != 2 {
+				return
+			}
+			ld, isLd := call.Call.Args[1].(*ssa.UnOp)
+			if !isLd {
+				return
+			}
+			ia, isIA := ld.X.(*ssa.IndexAddr)
+			if !isIA {
+				return
+			}
+			k, isK := core.ConstInt(ia.Index)
+			if !isK {
+				return
+			}
+			seen[k] = true
+			if k != 0 && k != 2 {
+				return
+			}
+			for _, b := range fn.Blocks {
+				iff, isIf := b.Instrs[len(b.Instrs)-1].(*ssa.If)
+				if !isIf {
+					continue
+				}
+				usesDone := false
+				var walk func(v ssa.Value, d int)
+				walk = func(v ssa.Value, d int) {
+					if d > 4 {
+						return
+					}
+					switch x := v.(type) {
+					case *ssa.Call:
+						if f := core.StaticCallee(x); f != nil && f.Name() == "Done" {
+							usesDone = true
+						}
+					case *ssa.UnOp:
+						walk(x.X, d+1)
+					case *ssa.BinOp:
+						walk(x.X, d+1)
+						walk(x.Y, d+1)
+					}
+				}
+				walk(iff.Cond, 0)
+				if !usesDone {
+					continue
+				}
+				for idx := range b.Succs {
+					if core.EdgeDominates(core.Edge{From: b, Idx: idx}, call.Block()) {
+						ok = false
+						why = fmt.Sprintf("child %d of a split cell is looked for by stepping back from the forward seek, but its test only runs when that seek did not reach the end of the index: when the split cell holds the last index cells and all of its content lies in child %d, the child is never visited and its edges are dropped from the search", k, k)
+					}
+				}
+			}
+		})
+		if !(seen[0] && seen[1] && seen[2] && seen[3]) {
+			ok, why = false, "the four processOrEnqueueCell(ch[k]) calls were not all found"
+		}
+		add("split:back-step-children", fn, ok, "children 0 and 2 are tested whether or not the forward seek ran off the end of the index", why)
+	}
 	return obs
 }
 
